@@ -423,6 +423,15 @@ def run(ctx):
                 if rng.random() < 0.7:
                     o["sp_permit_cpp11_shift"] = "true"
                 jobs.append(pipeline.Job("remove-all", sc.cfg(None, o), p, lang, {"opts": o, "text": txt, "kind": "remove-all"}))
+        # the code-modifying options are few: every mod_ option at every enumerated/boundary value on one C++ and one C/OC program of every run
+        if not thorough:
+            cpp = [pr for pr in progs if pr[1] == "CPP"]
+            cs = [pr for pr in progs if pr[1] in ("C", "OC")]
+            for n, (k, v) in enumerate(sorted(x for x in singles if x[0].startswith("mod_"))):
+                for pool in (cpp, cs):
+                    if pool:
+                        p, lang, txt = pool[n % len(pool)]
+                        jobs.append(pipeline.Job("single", sc.cfg(None, {k: v}), p, lang, {"opts": {k: v}, "text": txt, "kind": "mod-single"}))
         ctx.log("programs: %d, runs: %d" % (len(progs), len(jobs)))
         pipeline.run_jobs(exe, jobs, hooks=False, timeout=5)
 
